@@ -142,7 +142,7 @@ Proof. induction l as [|[r b] l IH]; [reflexivity|]. cbn [explode_n option_map m
 
 Lemma invoke_MultiPartsN sep n cb c : (n =? 0)%Z = false -> (n =? 1)%Z = false ->
   let '(done, parts, cur) := mpn_split sep n (cvalue c) in
-  let c' := mkCtx cur (cargs c) parts in
+  let c' := with_vp c cur parts in
   let i := invoke (cb c') c' in
   invoke (ActionMultiPartsN sep n cb) c =
     (set_nospace (fst i) (sm_add (nospace (fst i)) [sep_nospace sep]), rv_prefix done (snd i)).
@@ -182,6 +182,8 @@ Section ExprInd.
   Hypothesis HLI : forall d e, P e -> P (EList d e).
   Hypothesis HUL : forall d e, P e -> P (EUniqueList d e).
   Hypothesis HPT : forall vs e, P e -> P (EPartition vs e).
+  Hypothesis HSE : forall k v e, P e -> P (ESetenv k v e).
+  Hypothesis HGE : forall k, P (EGetenv k).
   Hypothesis HB : forall es, Forall P es -> P (EBatch es).
 
   Fixpoint expr_ind' (e : expr) : P e :=
@@ -210,6 +212,8 @@ Section ExprInd.
     | EList d e => HLI d e (expr_ind' e)
     | EUniqueList d e => HUL d e (expr_ind' e)
     | EPartition vs e => HPT vs e (expr_ind' e)
+    | ESetenv k v e => HSE k v e (expr_ind' e)
+    | EGetenv k => HGE k
     | EBatch es => HB es ((fix go (l : list expr) : Forall P l :=
                              match l with [] => Forall_nil P | x :: l' => Forall_cons x (expr_ind' x) (go l') end) es)
     end.
@@ -220,7 +224,7 @@ Proof.
   destruct e; cbn [denote];
     unfold ActionValues, ActionValuesDescribed, ActionStyledValuesDescribed, ActionMessage, Filter, Retain, FilterArgs,
       FilterParts, Prefix, Suffix, Style, StyleF, Tag, TagF, Usage, NoSpace, Suppress, Unless, Shift, MultiParts,
-      ActionMultiPartsN, List, UniqueList, ActionMultiParts, ActionMultiPartsN, Batch; eexists; reflexivity.
+      ActionMultiPartsN, List, UniqueList, ActionMultiParts, ActionMultiPartsN, Batch, Setenv, Getenv; eexists; reflexivity.
 Qed.
 
 Lemma sm_add_star_l rs : sm_add (B [42]) rs = B [42].
@@ -305,6 +309,10 @@ Proof.
   - (* Partition *)
     rewrite invoke_callback, invoke_Batch. cbn [map]. rewrite invoke_Filter, invoke_Retain, !invoke_to_a, IHe.
     destruct (eval ci rm e c); reflexivity.
+  - (* Setenv *)
+    unfold Setenv. rewrite invoke_callback, invoke_to_a. apply IHe.
+  - (* Getenv *)
+    unfold Getenv. rewrite invoke_callback. apply invoke_ActionValues.
   - (* Batch *)
     rewrite invoke_Batch. f_equal. induction H as [|x l Hx Hl IH]; [reflexivity|].
     cbn [map]. rewrite Hx, IH. reflexivity.
@@ -332,7 +340,7 @@ Qed.
 Lemma multiparts_rebuild sep n cb c r : (n =? 0)%Z = false -> (n =? 1)%Z = false ->
   In r (snd (invoke (ActionMultiPartsN sep n cb) c)) ->
   let '(done, parts, cur) := mpn_split sep n (cvalue c) in
-  exists y, In y (snd (invoke (cb (mkCtx cur (cargs c) parts)) (mkCtx cur (cargs c) parts))) /\
+  exists y, In y (snd (invoke (cb (with_vp c cur parts)) (with_vp c cur parts))) /\
             value r = done ++ value y /\ display r = display y /\ description r = description y.
 Proof.
   intros H0 H1 Hin. pose proof (invoke_MultiPartsN sep n cb c H0 H1) as H.
